@@ -41,7 +41,7 @@ func (c *c11Case) id() string {
 
 func faultKinds(typ string) []string {
 	if typ == "panos" || typ == "nsx" {
-		return []string{"http-500", "http-403", "http-403-empty", "http-502-empty", "close", "badxml", "status-error", "stall"}
+		return []string{"http-500", "http-403", "http-403-empty", "http-502-empty", "close", "badxml", "status-error", "stall", "stall-body"}
 	}
 	return []string{"error", "garbage", "close", "noecho", "stall", "die-before"}
 }
@@ -110,7 +110,7 @@ func buildC11(c *c11Case) *liveCase {
 		} else {
 			lc.HTTP.Faults = []sim.Fault{*c.Fault}
 		}
-		if c.Fault.Kind == "stall" {
+		if strings.HasPrefix(c.Fault.Kind, "stall") {
 			lc.Timeout = 1
 		}
 	}
@@ -210,7 +210,7 @@ func checkC11(tier, replay string) int {
 			}
 			for ord := 1; ord <= steps[i]; ord++ {
 				for _, kind := range faultKinds(k.typ) {
-					if (kind == "stall" || kind == "die-before") && tier == "quick" && (ord+i+int(env.Seed))%4 != 0 {
+					if (strings.HasPrefix(kind, "stall") || kind == "die-before") && tier == "quick" && (ord+i+int(env.Seed))%4 != 0 {
 						continue
 					}
 					cases = append(cases, &c11Case{Type: k.typ, FrontEnd: k.fe, Scenario: k.sc, Variant: "healthy",
